@@ -99,6 +99,49 @@ fn inner_models(tier: Tier) -> Vec<(Vec<VarDecl>, Con)> {
     out
 }
 
+/// Reified constraints in which the reification literal itself occurs (as a 0-1 integer term or as
+/// a Boolean of a Boolean linear constraint), in both polarities, next to a companion constraint
+/// that causes conflicts; both posting orders.
+pub fn self_referential_models() -> Vec<Model> {
+    let v = View::id;
+    let (x, w, r) = (0usize, 1usize, 2usize);
+    let vars = vec![VarDecl::interval(0, 3), VarDecl::interval(0, 3), VarDecl::lit()];
+    let inners: Vec<Con> = vec![
+        Con::LinLe(vec![v(x), v(w), View::new(r, -1, 0)], 1),
+        Con::LinLe(vec![v(x), v(w), v(r)], 3),
+        Con::LinLe(vec![View::new(x, -1, 0), View::new(w, -1, 0), View::new(r, 2, 0)], -2),
+        Con::LinEq(vec![v(x), View::new(w, -1, 0), v(r)], 1),
+        Con::LinNe(vec![v(x), v(w), View::new(r, -2, 0)], 1),
+        Con::BinLe(v(x), View::new(r, 2, 1)),
+        Con::BoolLinLe(vec![2, 1], vec![Lit::n(r), Lit::p(r)], 1),
+        Con::Max(vec![v(x), View::new(r, 3, 0)], v(w)),
+    ];
+    let companions: Vec<Con> = vec![
+        Con::LinLe(vec![v(x), View::new(w, -1, 0)], 1),
+        Con::BinNe(v(x), v(w)),
+    ];
+    let mut out = vec![];
+    for inner in &inners {
+        for lit in [Lit::p(r), Lit::n(r)] {
+            for reified in [false, true] {
+                if reified && !inner.negatable() {
+                    continue;
+                }
+                let main = if reified {
+                    Con::Reified(lit, Box::new(inner.clone()))
+                } else {
+                    Con::Implied(lit, Box::new(inner.clone()))
+                };
+                for comp in &companions {
+                    out.push(Model::new(vars.clone(), vec![comp.clone(), main.clone()]));
+                    out.push(Model::new(vars.clone(), vec![main.clone(), comp.clone()]));
+                }
+            }
+        }
+    }
+    out
+}
+
 /// A stride of the reified / half-reified cases with a free reification literal (positive and
 /// negative polarity, reified negation), for the explanation check C17.
 pub fn reified_models(tier: Tier) -> Vec<Model> {
@@ -210,7 +253,7 @@ impl Property for C09 {
     }
     fn rule(&self, tier: Tier) -> String {
         format!(
-            "Every instance of the constraint alphabet over 2-3 variables ({} inner constraints) x mode {{implied_by, reify, negation().post, negation().reify}} x status of the reification literal {{free, true before, false before, true after, false after, negative literal}} x fixing orders (InputOrder over permutations placing the literal first/last/in between, with min and max value selection; plus the scripted brancher with <=1 deviation for a stride); the complete solution set over (variables, literal) must equal {{r -> c}}, {{r <-> c}} or the complement. A case = (inner constraint, mode, status, order); non-trivial = the reference set is neither empty nor everything. The explanation tap is on: every reason is also checked against the reified reference constraint.",
+            "Every instance of the constraint alphabet over 2-3 variables ({} inner constraints) x mode {{implied_by, reify, negation().post, negation().reify}} x status of the reification literal {{free, true before, false before, true after, false after, negative literal}} x fixing orders (InputOrder over permutations placing the literal first/last/in between, with min and max value selection; plus the scripted brancher with <=1 deviation for a stride); plus a family in which the reification literal itself occurs in the reified constraint (both polarities, both posting orders, with a conflicting companion constraint); the complete solution set over (variables, literal) must equal {{r -> c}}, {{r <-> c}} or the complement. A case = (inner constraint, mode, status, order); non-trivial = the reference set is neither empty nor everything. The explanation tap is on: every reason is also checked against the reified reference constraint.",
             inner_models(tier).len()
         )
     }
@@ -255,6 +298,26 @@ impl Property for C09 {
                         });
                     }
                 }
+            }
+        }
+        // the reification literal occurring inside the reified constraint
+        for model in self_referential_models() {
+            let mut sols: Option<Vec<Vec<i32>>> = None;
+            for (perm, valsel) in orders(model.vars.len()) {
+                let my = idx;
+                idx += 1;
+                if !ctl.want(my) {
+                    continue;
+                }
+                let sols = sols.get_or_insert_with(|| model.solutions());
+                let desc = || format!("{} || self-referential || order {:?} val {}", model.describe(), perm, valsel);
+                ctl.case(my, &desc, &mut |cx| {
+                    cx.nontrivial = gen::nontrivial(&model, sols.len());
+                    run_order(&model, sols, &cfg, &perm, valsel, cx);
+                    if valsel == 0 {
+                        c17::explore(&model, &cfg, &c17::Bounds { deviations: 1, depth: 4 }, cx, sols.len());
+                    }
+                });
             }
         }
     }
